@@ -374,6 +374,8 @@ const CLASSES: [&str; 9] = ["tie", "far", "cancel", "zero", "subnormal", "edge",
 const BINARY: [&str; 6] = ["add", "sub", "mul", "div", "remainder", "modulo"];
 /// operations whose specification verdict is about the FeelNumber method, not the dec.rs wrapper
 const FN_SPEC_OPS: [&str; 3] = ["even", "odd", "isint"];
+/// operations whose specification the driver can apply to a given result (`judge` / `judgev`)
+const JUDGED_OPS: [&str; 8] = ["add", "sub", "mul", "div", "sqrt", "rescale", "floor", "ceiling"];
 const UNARY: [&str; 12] = ["neg", "abs", "reduce", "floor", "ceiling", "trunc", "fract", "sqrt", "even", "odd", "isint", "rescale"];
 
 fn ord_str(o: Option<Ordering>) -> &'static str {
@@ -612,6 +614,7 @@ pub fn run(cfg: &Cfg) -> Report {
   let reqs: Vec<String> = cases.iter().map(|c| c.req.clone()).collect();
   let answers = model.ask_batch(&reqs);
   let mut judge_queue: Vec<(usize, String)> = vec![];
+  let mut judgev_queue: Vec<(usize, String)> = vec![];
   for (idx, (c, ans)) in cases.iter().zip(answers.iter()).enumerate() {
     let input = c.req.clone();
     let parsed = Sexp::parse(ans);
@@ -669,6 +672,9 @@ pub fn run(cfg: &Cfg) -> Report {
       Ok(i_f) => {
         if i_f != "na" && i_f != m_f {
           rep.disagree(Kind::ImplVsModel, c.op, &format!("FeelNumber {} differs from the model FNum.{}", c.op, c.op), &input, &i_f, &m_f);
+          if JUDGED_OPS.contains(&c.op) {
+            judgev_queue.push((idx, if i_f.starts_with("(n ") || i_f.starts_with("(inf") { i_f.clone() } else { "(nan)".to_string() }));
+          }
         } else if spec_ok == "false" && FN_SPEC_OPS.contains(&c.op) {
           // for these the specification speaks about the FeelNumber method (dec.rs only has the raw decQuad tests)
           rep.disagree(Kind::ImplVsSpec, c.op, &spec_signature(c.op, &c.a), &input, &i_f, "the specification of the operation");
@@ -705,6 +711,19 @@ pub fn run(cfg: &Cfg) -> Report {
     }
     if rep.samples.len() < 10 && nontrivial && (c.class == "tie" || c.class == "edge" || c.class == "subnormal") && idx % 7 == 0 {
       rep.sample(json!({"request": input, "model_raw_feelnumber_spec": ans}));
+    }
+  }
+  // the specification on the FeelNumber layer's own (differing) answers
+  for (idx, i_f) in judgev_queue {
+    let c = &cases[idx];
+    let jreq = match (&c.b, c.op) {
+      (Some(b), _) => format!("(c02 judgev {} {} {} {})", c.op, c.a.wire(), b.wire(), i_f),
+      (None, "rescale") => format!("(c02 judgev rescale {} {} {})", c.a.wire(), c.k, i_f),
+      (None, _) => format!("(c02 judgev {} {} {})", c.op, c.a.wire(), i_f),
+    };
+    let jr = model.ask(&jreq);
+    if jr.contains("false") {
+      rep.disagree(Kind::ImplVsSpec, c.op, &spec_signature(c.op, &c.a), &format!("FeelNumber {}", c.req), &i_f, "the specification of the operation");
     }
   }
   // the specification on the implementation's own (differing) answers
